@@ -107,7 +107,7 @@ class Registry:
                 return c
         raise KeyError(name)
 
-    def lookup(self, key, conc_args: dict):
+    def lookup(self, key, conc_args: dict, args=None):
         """Contract instance for a call of `key` whose concrete arguments are conc_args
         (param name -> live object)."""
         cands = self.contracts.get(key, [])
@@ -118,6 +118,19 @@ class Registry:
                 if p in conc_args and conc_args[p] is not b.get():
                     ok = False
                     break
+            if ok and args is not None:
+                from . import values as V
+                for p, sh in c.params.items():
+                    if isinstance(sh, Conc) or p not in args or isinstance(args[p].shape, V.ConcS):
+                        continue
+                    a = args[p].shape
+                    if a == sh or isinstance(a, (V.UnionS, V.OptS)):
+                        continue
+                    try:
+                        V.coerce(args[p], sh)
+                    except Exception:
+                        ok = False
+                        break
             if ok:
                 if best is None or len(c.conc_bindings()) > len(best.conc_bindings()):
                     best = c
